@@ -35,7 +35,7 @@ def run(run):
                 fails.append({"kind": "input", "stream": "generated queries", "text": text, "analysis": w, "request": reqs[i * len(whichs) + j], "expected": exp,
                               "observed": a[:600], "oracle_verdict": "the %s analysis reports %s, the clause reads %s" % (w, a[:300], exp[:300])})
         a = im[i * len(whichs) + len(CLAUSES)]
-        exp = qgen.fmt_cols(union)
+        exp = qgen.fmt_cols(q.all_refs())
         if a != exp:
             if False:
                 known_with += 1
